@@ -385,6 +385,80 @@ func scenarioRR(n, threads, per int) explore.Scenario {
 	}
 }
 
+// Two selections at the same time over different candidate lists (candidates are computed per request: another model,
+// another provider prefix), on one selector, with fixed in-flight numbers: each answer must be a member of its own
+// list and minimal among its own candidates - whatever scratch state the selector keeps between or across calls.
+func scenarioTwoLists(strat string, counts []int, listA, listB []int) explore.Scenario {
+	var got [2]string
+	name := fmt.Sprintf("%s two selections at once, in-flight %v, candidates %v || %v", strat, counts, listA, listB)
+	lists := [2][]int{listA, listB}
+	return explore.Scenario{
+		Name: name,
+		Body: func() {
+			got = [2]string{}
+			sel, _ := mk(strat)
+			var all []*domain.Endpoint
+			for i := range counts {
+				e := hutil.Endpoint(string(rune('A'+i)), 9000+i, domain.StatusHealthy, 0)
+				all = append(all, e)
+				for j := 0; j < counts[i]; j++ {
+					sel.IncrementConnections(e)
+				}
+				if counts[i] == 0 {
+					sel.IncrementConnections(e)
+					sel.DecrementConnections(e)
+				}
+			}
+			one := func(t int) {
+				var l []*domain.Endpoint
+				for _, i := range lists[t] {
+					l = append(l, all[i])
+				}
+				e, err := sel.Select(ctx, l)
+				if err != nil || e == nil {
+					got[t] = "ERR"
+					return
+				}
+				got[t] = e.Name
+			}
+			vsched.Go(func() { one(1) })
+			one(0)
+			vsched.WaitOthers()
+		},
+		Judge: func(out vsched.Outcome) explore.Verdict {
+			fp := got[0] + "," + got[1]
+			v := explore.Verdict{OK: true, Fingerprint: fp, Collision: len(out.Decisions) > 0}
+			for t := 0; t < 2; t++ {
+				member, minimal := false, true
+				idx := -1
+				for _, i := range lists[t] {
+					if string(rune('A'+i)) == got[t] {
+						member, idx = true, i
+					}
+				}
+				if member && strat == "least-connections" {
+					for _, i := range lists[t] {
+						if counts[i] < counts[idx] {
+							minimal = false
+						}
+					}
+				}
+				if !member || !minimal {
+					v.OK = false
+					v.Clause = "selection-not-from-own-candidates"
+					if member {
+						v.Clause = "lc-not-minimal-among-own-candidates"
+					}
+					v.Witness = map[string]any{"strategy": strat, "scenario": "two-lists"}
+					v.Detail = fmt.Sprintf("%s: selection %d answered %s", name, t, got[t])
+					return v
+				}
+			}
+			return v
+		},
+	}
+}
+
 // least-connections under concurrent mutation. muts[i] is the op list of mutator thread i: "+A","-B",..
 func scenarioLC(ncand int, init []int, muts [][]string) explore.Scenario {
 	type ev struct {
@@ -596,6 +670,11 @@ func scenarios() []struct {
 	add(scenarioLC(2, []int{1, 0}, [][]string{{"+A", "+B"}}), b)
 	add(scenarioLC(2, []int{1, 0}, [][]string{{"+A"}, {"+B"}}), b)
 	add(scenarioLC(3, []int{1, 2, 0}, [][]string{{"+C", "+C", "+C"}}), b)
+	for _, strat := range []string{"least-connections", "round-robin"} {
+		add(scenarioTwoLists(strat, []int{2, 0}, []int{1, 0}, []int{0}), b)
+		add(scenarioTwoLists(strat, []int{2, 0, 1}, []int{0, 1}, []int{2, 0}), b)
+		add(scenarioTwoLists(strat, []int{0, 3, 1}, []int{1, 2}, []int{0}), b)
+	}
 	if th {
 		add(scenarioLC(3, []int{1, 1, 0}, [][]string{{"+C"}, {"-A"}}), b)
 		add(scenarioLC(3, []int{2, 1, 0}, [][]string{{"+C", "+C"}, {"-A", "-A"}}), b)
